@@ -143,6 +143,31 @@ def mec_r2(pts):
     return max(mec3_r2(*t) for t in itertools.combinations(pts, 3))
 
 
+def mec3_centre(p, q, r):
+    """centre of the minimal enclosing circle of three distinct points"""
+    a2, b2, c2 = d2(q, r), d2(p, r), d2(p, q)
+    m = max(a2, b2, c2)
+    if a2 + b2 + c2 - m <= m:          # the longest side is a diameter
+        u, v = (q, r) if m == a2 else (p, r) if m == b2 else (p, q)
+        return (Fraction(u[0] + v[0]) / 2, Fraction(u[1] + v[1]) / 2)
+    (ax, ay), (bx, by), (cx, cy) = p, q, r
+    d = 2 * (ax * (by - cy) + bx * (cy - ay) + cx * (ay - by))
+    sa, sb, sc = ax * ax + ay * ay, bx * bx + by * by, cx * cx + cy * cy
+    return (Fraction(sa * (by - cy) + sb * (cy - ay) + sc * (ay - by)) / d,
+            Fraction(sa * (cx - bx) + sb * (ax - cx) + sc * (bx - ax)) / d)
+
+
+def mec_centre(pts):
+    """centre of the minimal enclosing circle: that of a triple whose circle is the largest (the model's driver CHECKS that
+    the circle encloses every point: `enclosedB`)"""
+    pts = list(dict.fromkeys(pts))
+    if len(pts) == 1:
+        return (Fraction(pts[0][0]), Fraction(pts[0][1]))
+    if len(pts) == 2:
+        return (Fraction(pts[0][0] + pts[1][0]) / 2, Fraction(pts[0][1] + pts[1][1]) / 2)
+    return mec3_centre(*max(itertools.combinations(pts, 3), key=lambda t: mec3_r2(*t)))
+
+
 # ------------------------------------------------------------------------------------------------
 # global parameters and cost functions of the front-end stream
 # ------------------------------------------------------------------------------------------------
@@ -216,12 +241,14 @@ class P(Prop):
         ("TracklibVerif.Props.C12", "TV.C12.stops_fit_in_circle", "T3: if minCircle's circle is moreover minimal, the reward of (a,b) is (b-a)^2 exactly when the segment lasts at least duration and its observations fit in SOME disc of diameter <= diameter (no reference to minCircle's answer), 0 otherwise"),
         ("TracklibVerif.Props.C12", "TV.C12.stops_track_optimal", "T3: under stops_criterion's hypotheses the segmentation maximises the summed DOCUMENTED reward over all chains 0..size-2"),
         ("TracklibVerif.Props.C12", "TV.C12.stops_final_filter", "the final filter of findStopsGlobal (None circle, radius > diameter/2, duration() < duration) is the documented test with the same inclusive boundaries"),
+        ("TracklibVerif.Props.C12", "TV.C12.enclosedB_sound", "the certificate the driver computes on every stop-detection case (every circle handed to the model encloses the observations of its segment in the plane) is the hypothesis hc of stops_criterion / stops_track_optimal / find_stops_global"),
+        ("TracklibVerif.Props.C12", "TV.C12.find_stops_global_checked", "find_stops_global with its hypothesis on the circles replaced by that certificate (checked at run time, reply token <enc>)"),
         ("TracklibVerif.Props.C12", "TV.C12.find_stops_global", "T3: findStopsGlobal(track, diameter, duration, downsampling) returns, as (id_ini, id_end, nb_points) = (a*downsampling, (b-1)*downsampling, b-a), exactly the segments admitted by the documented criterion of a chain that maximises the summed documented reward on the track it works on (the resampled copy when downsampling > 1)"),
     ]
     partial = []
     open_statements = [
         "IEEE doubles: optimal_bracketed / optimal_rounded are proved for an abstract rounded addition (monotone, relative error u, no associativity); that binary64 addition satisfies these hypotheses (no NaN, no overflow, u = 2^-53) is assumed, not proved in Lean (Float is opaque), and is what the transfer check on doubles samples, with the same tolerance shape and the generous constant 1e-9",
-        "findStopsGlobal: the model (findStopsGlobalPy) reads the observations (x, y, z, t), computes the squared planimetric distances and the durations itself and applies the three tests, the final filter and the identifiers; minCircle (Welzl, randomised) and the temporal resampling `track ** (size/downsampling)` remain parameters: the check computes the circles with exact rational geometry — except the entries where tracklib's minCircle returns None (recorded from the run) and circles through >= 3 distinct fixes whose exact diameter equals the limit (doubles decide: read off the run) — and takes the resampled track from tracklib; that minCircle's circle encloses its segment and is minimal (hypotheses hc / hmin of stops_criterion, stops_fit_in_circle) is not proved about tracklib's Welzl implementation",
+        "findStopsGlobal: the model (findStopsGlobalPy) reads the observations (x, y, z, t), computes the squared planimetric distances and the durations itself and applies the three tests, the final filter and the identifiers; minCircle (Welzl, randomised) and the temporal resampling `track ** (size/downsampling)` remain parameters: the check computes the circles with exact rational geometry — except the entries where tracklib's minCircle returns None (recorded from the run) and circles through >= 3 distinct fixes whose exact diameter equals the limit (doubles decide: read off the run) — and takes the resampled track from tracklib; that the circles handed to the model enclose their segments (hypothesis hc of stops_criterion / find_stops_global) is CHECKED by the driver on every case (enclosedB, theorem enclosedB_sound); that they are minimal (hmin of stops_fit_in_circle) and that tracklib's Welzl implementation returns them is not proved — the latter is what the cell-by-cell comparison of the reward matrix samples",
         "findStopsGlobal with downsampling > 1: coordinates and times of the resampled track are interpolated doubles on which the code's own doubles (sqrt of a rounded sum, circumcentre, difference of absolute times) are not exact; a case with a value within 1e-9 of a threshold is not judged (tagged in the input histogram). Lengths are compared through their squares in the model (exact for the integer / dyadic tracks generated)",
         "findStopsGlobal on a track where every altitude of a reported stop is NaN raises ZeroDivisionError (the AVERAGER of no value) after the segmentation was computed: class '%s'; tracks where that can happen are generated once the class is listed in known_findings.json (findings/C12.json)" % FINDING_NANZ,
         "findStopsGlobal: when tracklib's minCircle returns None for a segment (three collinear boundary points met in some random orders of Welzl's algorithm) the code writes reward 0 where the documented criterion rewards the segment; the model has this case (`small = none`), the oracle demands the optimum of the DOCUMENTED criterion and reports the loss (class '%s')" % FINDING_MINCIRCLE,
@@ -1145,9 +1172,14 @@ class P(Prop):
             row = lambda p: [p[0], p[1], Fraction(0) if p[2] is None else p[2], p[3]]
             own, _ = self.eff_points(dict(case, ds=1))
             ds = case.get("ds", 1)
-            return ["C12.stopsd q %s %s %s %s %s %s %s" % (
+            # centres of the circles: the driver checks that every circle handed over encloses its segment (enclosedB), which
+            # is the hypothesis of stops_criterion / find_stops_global
+            xy = [(p[0], p[1]) for p in g["eff"]]
+            cen = [[mec_centre(xy[i:e + 1]) if e >= i else (Fraction(0), Fraction(0)) for e in range(n)] for i in range(n)]
+            return ["C12.stopsd q %s %s %s %s %s %s %s %s %s" % (
                 ratstr(Fraction(case["diameter"])), ratstr(num["duration"]), ratstr(Fraction(ds)), self.mtok("q", [row(p) for p in own]),
-                self.mtok("q", [row(p) for p in g["eff"]]) if ds > 1 else "_", self.mtok("q", circ), self.mtok("q", after))]
+                self.mtok("q", [row(p) for p in g["eff"]]) if ds > 1 else "_", self.mtok("q", circ), self.mtok("q", after),
+                self.mtok("q", [[c[0] for c in r] for r in cen]), self.mtok("q", [[c[1] for c in r] for r in cen]))]
 
     def run_capture(self, case):
         import engine
@@ -1177,7 +1209,9 @@ class P(Prop):
             return {"idx": [int(x) for x in idx.split(",")], "cost": d if s == "q" else bitsf(d),
                     "again": [int(x) for x in idx.split(",")]}
         if k == "stops":
-            mat, idx, st = r.split(" ")
+            mat, idx, st = r.split(" ")[:3]
+            if not case.get("rtk") and r.split(" ")[3] != "1":
+                raise ValueError("a circle handed to the model does not enclose its segment (enclosedB = %s)" % r.split(" ")[3])
             out = {"C": [[Fraction(v) for v in row.split(",")] for row in mat.split(";")],
                    "idx": [int(x) for x in idx.split(",")]}
             if case.get("rtk"):
